@@ -216,13 +216,20 @@ func (g *GraphQLVariableRenderer) renderGraphQLValue(data *astjson.Value, out io
 	case astjson.TypeString:
 		_, _ = out.Write(literal.BACKSLASH)
 		_, _ = out.Write(literal.QUOTE)
+		// the value is written as a GraphQL string literal that itself sits inside a JSON string
+		// (hence the \" delimiters): a quote or backslash of the value needs the GraphQL escape \" / \\,
+		// whose backslash and quote are escaped once more for JSON; control characters are not allowed
+		// raw in either, they become the GraphQL escape \u00XX
 		b := data.GetStringBytes()
 		for i := range b {
-			switch b[i] {
-			case '"':
-				_, _ = out.Write(literal.BACKSLASH)
-				_, _ = out.Write(literal.BACKSLASH)
-				_, _ = out.Write(literal.QUOTE)
+			switch {
+			case b[i] == '"':
+				_, _ = out.Write([]byte(`\\\"`))
+			case b[i] == '\\':
+				_, _ = out.Write([]byte(`\\\\`))
+			case b[i] < 0x20:
+				const hexDigits = "0123456789abcdef"
+				_, _ = out.Write([]byte{'\\', '\\', 'u', '0', '0', hexDigits[b[i]>>4], hexDigits[b[i]&0xf]})
 			default:
 				_, _ = out.Write(b[i : i+1])
 			}
